@@ -74,6 +74,8 @@ class ChunkParser:
             else:
                 # Ignore chunk extensions, if any
                 size = int(line.split(b';', 1)[0].strip(), 16)
+                if size < 0:
+                    raise ValueError('Invalid chunk size')
                 if size == 0:
                     self._in_trailer = True
                 else:
